@@ -149,7 +149,8 @@ def _side(ctx, p, has):
         d['f'] = sym_int(ctx, p + 'f', 0)
         d['l'] = sym_int(ctx, p + 'l', 0)
         ctx.assume(z3.And(d['f'].e <= d['l'].e, d['l'].e < d['i'].e, d['c'].e >= 1,
-                          d['c'].e <= d['l'].e - d['f'].e + 1))
+                          d['c'].e <= d['l'].e - d['f'].e + 1,
+                          z3.Implies(d['f'].e < d['l'].e, d['c'].e >= 2)))
     else:
         ctx.assume(d['c'].e == 0)
     return d
@@ -186,6 +187,8 @@ def ob_step(ctx, rich, STEP):
         m_ = _side(ctx, 'm', ctx.choose(0, 1, 'm.has'))
         ctx.assume(z3.Not(z3.And(o['i'].e >= o['n'].e, m_['i'].e >= m_['n'].e)))
         ctx.assume(z3.And(td.e >= o['c'].e, ti.e >= m_['c'].e))
+        # both sides share their context lines
+        ctx.assume(o['i'].e - o['c'].e == m_['i'].e - m_['c'].e)
         cx = [None, b'ctx'][ctx.choose(0, 1, 'ctx')]
         st['cur_hunk_orig'] = _impl_side(o)
         st['cur_hunk_modified'] = _impl_side(m_)
@@ -194,12 +197,14 @@ def ob_step(ctx, rich, STEP):
         rs.orig, rs.mod, rs.context = _ref_side(RH, o), _ref_side(RH, m_), cx
     line = sym_line(ctx, 'ln', rich)
     st['line'] = line
+    import copy
+    pre = {k: (copy.copy(v) if isinstance(v, dict) else v) for k, v in st.items() if k != 'line'}
 
     def wit(m):
         def cv(x):
             return concretize_value(m, x)
         return {'in_hunk': in_hunk, 'ignore_garbage': ig, 'line': model_bytes(m, line), 'line_num': cv(ln),
-                'state': {k: cv(v) for k, v in st.items() if k not in ('line',)}}
+                'state': {k: cv(v) for k, v in pre.items()}}
     ys = []
     a = _outcome(lambda: step(_sx_yield_=ys, **st), MalformedHunkError)
     if a[0] == 'exc':
